@@ -39,8 +39,8 @@ fn rule_status(ctx: &Ctx, out: &mut Vec<Violation>) {
 
 /// C10.conflict: a create / delete of a topic or subscription answered with a "the resource went
 /// away under me" status (FAILED_PRECONDITION / INTERNAL) although no other create or delete was
-/// in flight during the call (and none with an open-ended effect - abandoned, unanswered - before
-/// it): as a map operation it had to answer OK, ALREADY_EXISTS or NOT_FOUND.
+/// in flight during the call (and none with an open-ended effect before it: unanswered, or abandoned
+/// with no quiescent barrier since): as a map operation it had to answer OK, ALREADY_EXISTS or NOT_FOUND.
 fn rule_unprovoked_conflict(ctx: &Ctx, out: &mut Vec<Violation>) {
     let m = ctx.m;
     let is_mutation = |r: &Req| matches!(r, Req::CreateSub { .. } | Req::DeleteSub { .. } | Req::CreateTopic { .. } | Req::DeleteTopic { .. });
@@ -50,7 +50,20 @@ fn rule_unprovoked_conflict(ctx: &Ctx, out: &mut Vec<Violation>) {
             continue;
         }
         let (inv, ret) = (c.inv_seq, c.ret_seq.unwrap_or(u64::MAX));
-        let provoked = muts.iter().any(|o| o.id != c.id && o.inv_seq < ret && o.effect_end_seq() > inv);
+        // Until when another create / delete may still be at work: its answer; for one whose client
+        // went away, the first quiescent barrier after that (the server has come to rest: whatever
+        // the request was going to do is done); for one that never returned, for ever.
+        let settled_end = |o: &Call| -> u64 {
+            match &o.out {
+                Some(Outcome::Ok(_)) | Some(Outcome::Err(_, _)) => o.ret_seq.unwrap_or(u64::MAX),
+                Some(_) => match o.ret_seq {
+                    Some(r) => m.barriers.iter().find(|b| b.quiescent && b.seq > r).map(|b| b.seq).unwrap_or(u64::MAX),
+                    None => u64::MAX,
+                },
+                None => u64::MAX,
+            }
+        };
+        let provoked = muts.iter().any(|o| o.id != c.id && o.inv_seq < ret && settled_end(o) > inv);
         if provoked {
             continue;
         }
